@@ -160,7 +160,13 @@ def gen_program(r: Rng, size=30, sp=None, allow_undefined=False, stdout_writes=T
                 reads.add(ad)
                 p.op(r.choice(["LDAM", "LDBM", "STAM"]), ad)
             elif k == 5:
-                p.op("LDAP", r.choice([0, 1, -1, 100, -100, r.below(4096)]))
+                p.op("LDAP", r.choice([0, 1, -1, 100, -4, -17, r.below(4096)]))   # result stays inside [0, 800000): body starts at byte >= 28
+                if r.chance(1, 2):
+                    # make the full 32-bit LDAP result observable (an address is < 2^20 here)
+                    wr = Prog()
+                    wr.op("LDAC", 0x51); wr.op("LDBM", 1); wr.op("STAI", 2)
+                    wr.op("LDAC", 0 if stdout_writes else 0x300); wr.op("STAI", 3); wr.op("LDAC", 1); wr.opr(3)
+                    p.op("LDBC", 1 << 20); p.opr(2); p.op("BRN", len(wr.b)); p.b += wr.b
             elif k < 8:
                 base = scratch + r.below(32)
                 reads.add(base)
@@ -174,6 +180,13 @@ def gen_program(r: Rng, size=30, sp=None, allow_undefined=False, stdout_writes=T
                 p.opr(r.choice([1, 2]))
             elif k < 12 and depth < 2:
                 inner = block(depth + 1, 1 + r.below(4))
+                if r.chance(1, 2):
+                    # branch decision on a boundary value, made observable by a write in the skipped block
+                    p.op("LDAC", r.choice([0, 1, -1, 0x7FFFFFFF, -0x80000000, 0x100000, 0x200000, 255, 256]))
+                    wr = Prog()
+                    wr.op("LDAC", 0x42); wr.op("LDBM", 1); wr.op("STAI", 2)
+                    wr.op("LDAC", 0 if stdout_writes else 0x300); wr.op("STAI", 3); wr.op("LDAC", 1); wr.opr(3)
+                    inner.b = wr.b + inner.b
                 p.op(r.choice(["BR", "BRZ", "BRN"]), len(inner.b))
                 p.b += inner.b
             elif k == 12 and depth < 2:
@@ -225,6 +238,7 @@ def gen_program(r: Rng, size=30, sp=None, allow_undefined=False, stdout_writes=T
         return p
 
     main = block(0, size).b
+    body.b += [0x30] * 20          # 20 x LDAC 0: backward LDAP offsets (>= -17) stay above address 0
     if init_reads:
         for ad in sorted(reads):
             body.op("LDAC", r.choice([0, 0, 1, 7, ad])); body.op("STAM", ad)
